@@ -89,6 +89,11 @@ theorem C01_subdir (c : Cfg) (hb : Benign c) (ho : GiOK c) (hp : c.paths = []) (
 theorems rely on. -/
 theorem C01_matcher_domainLaw : DomainLaw matcherMatch := matcherMatch_domain
 
+/-- …and so does the matcher that answers from a table of the real go-git matcher's verdicts (full gitignore syntax:
+globs, anchors, `**`, classes), whatever the table contains: all walk theorems cover such scans. -/
+theorem C01_table_matcher_domainLaw (key : PatSet → Option String) (tbl : List (String × List String × Bool)) :
+    DomainLaw (tableMatch key tbl) := tableMatch_domain key tbl
+
 /-! Non-vacuity: a benign configuration with gitignore handling, a skip glob and a size limit, on a
 tree with a nested `.gitignore`; both extractors are owed `a/x` once each, `a/b` is ignored. -/
 def exCfg : Cfg where
